@@ -1,4 +1,13 @@
-"""with-statements: lock objects (ghost 'held' flag) and inlined single-yield @contextmanager functions."""
+"""with-statements.
+
+* `with lock:` where the value provides with_block (ghost lock): the block runs with ghost 'held' set and the
+  lock is released on every exit path.
+* `with f(...) as x: BODY` where f is a repository function decorated @contextlib.contextmanager with exactly one
+  `yield`: the generator body is inlined mechanically with the `yield` replaced by BODY. An exception leaving BODY is
+  raised at the yield (so the generator's try/except sees it; a BaseException that is not an Exception bypasses an
+  `except Exception` handler); `return` inside BODY resumes the generator after the yield and is delivered when the
+  generator finishes. Assumed: contextlib's semantics for a single-yield generator that does not swallow the exception.
+"""
 import ast
 
 from . import extract
@@ -6,15 +15,160 @@ from .state import *  # noqa
 from .values import *  # noqa
 
 
+class BodyMarker(ast.stmt):
+    _fields = ()
+
+
+def _find_yield(fnode):
+    ys = [n for n in ast.walk(fnode) if isinstance(n, (ast.Yield, ast.YieldFrom))]
+    return ys
+
+
 def exec_with(E, s, item, st, fx):
+    ce = item.context_expr
+    # context manager function of the repository?
+    if isinstance(ce, ast.Call):
+        outs = []
+        for f in E.ev(ce.func, st, fx):
+            if f.exc is not None:
+                outs.append(E._raise_out(f, s))
+                continue
+            fv = f.val
+            q = getattr(fv, "qualname", None) if isinstance(fv, FuncV) and fv.what in ("repo", "bound") else None
+            if q is not None and extract.func(q).is_contextmanager and q not in E.contracts:
+                outs.extend(_inline_cm(E, s, item, ce, fv, f.st, fx))
+            else:
+                for r in E._call_args(ce, fv, f.st, fx):
+                    if r.exc is not None:
+                        outs.append(E._raise_out(r, s))
+                    else:
+                        outs.extend(_with_value(E, s, item, r.val, r.st, fx))
+        return outs
     outs = []
-    for r in E.ev(item.context_expr, st, fx):
+    for r in E.ev(ce, st, fx):
+        if r.exc is not None:
+            outs.append(E._raise_out(r, s))
+        else:
+            outs.extend(_with_value(E, s, item, r.val, r.st, fx))
+    return outs
+
+
+def _with_value(E, s, item, v, st, fx):
+    if hasattr(v, "with_block"):
+        return v.with_block(E, s, item, st, fx)
+    raise OutOfReach("with over %s" % v.kind)
+
+
+def _inline_cm(E, s, item, ce, fv, st, fx):
+    finfo = extract.func(fv.qualname)
+    E.functions_run[fv.qualname] = finfo.describe()
+    ys = _find_yield(finfo.node)
+    if len(ys) != 1 or not isinstance(ys[0], ast.Yield):
+        raise OutOfReach("context manager %s does not have exactly one yield" % fv.qualname)
+    from .sym import Frame
+    gfx = Frame(finfo)
+    # evaluate the call's arguments in the caller, bind in the generator frame
+    pos = [a for a in ce.args]
+    outs = []
+    for r in E.ev_many(pos + [k.value for k in ce.keywords], st, fx):
         if r.exc is not None:
             outs.append(E._raise_out(r, s))
             continue
-        v = r.val
-        if hasattr(v, "with_enter"):
-            outs.extend(v.with_block(E, s, item, r.st, fx))
-        else:
-            raise OutOfReach("with over %s" % v.kind)
+        args = r.val[:len(pos)]
+        kwargs = {k.arg: v for k, v in zip(ce.keywords, r.val[len(pos):])}
+        caller_env = r.st.env
+        r.st.env = {}
+        for b in E.bind_args(finfo, r.st, args, kwargs, getattr(fv, "selfv", None), gfx):
+            if b.exc is not None:
+                b.st.env = caller_env
+                outs.append(E._raise_out(b, s))
+                continue
+            stg = b.st
+            stg.ghost.setdefault("cm_stack", []).append({"caller_env": caller_env, "ret": None})
+            body = _replace_yield(finfo.body(), ys[0], s, item, fx)
+            for o in E.exec_block(body, stg, gfx):
+                frame = o.st.ghost["cm_stack"].pop()
+                o.st.env = frame["caller_env_out"] if "caller_env_out" in frame else dict(caller_env)
+                if o.kind in ("normal", "return"):
+                    # generator finished: deliver a return executed inside BODY, else fall through
+                    if frame["ret"] is not None:
+                        outs.append(Outcome("return", o.st, frame["ret"][0], frame["ret"][1]))
+                    elif frame.get("ran_body"):
+                        outs.append(Outcome("normal", o.st))
+                    else:
+                        raise OutOfReach("context manager %s finished without yielding" % fv.qualname)
+                else:
+                    outs.append(o)
+    return outs
+
+
+class _Y:
+    pass
+
+
+def _replace_yield(stmts, ynode, with_stmt, item, caller_fx):
+    """copy of the statement list with the `yield` expression statement replaced by a marker"""
+    def rep(lst):
+        out = []
+        for st in lst:
+            if isinstance(st, ast.Expr) and st.value is ynode:
+                m = BodyMarker()
+                m.lineno = st.lineno
+                m.with_stmt, m.item, m.caller_fx, m.yval = with_stmt, item, caller_fx, ynode.value
+                out.append(m)
+                continue
+            if isinstance(st, (ast.Try,)):
+                n = ast.Try(body=rep(st.body), handlers=[ast.ExceptHandler(type=h.type, name=h.name, body=rep(h.body)) for h in st.handlers],
+                            orelse=rep(st.orelse), finalbody=rep(st.finalbody))
+                ast.copy_location(n, st)
+                for h, h0 in zip(n.handlers, st.handlers):
+                    ast.copy_location(h, h0)
+                out.append(n)
+            elif isinstance(st, ast.If):
+                n = ast.If(test=st.test, body=rep(st.body), orelse=rep(st.orelse))
+                ast.copy_location(n, st)
+                out.append(n)
+            elif isinstance(st, ast.With):
+                n = ast.With(items=st.items, body=rep(st.body))
+                ast.copy_location(n, st)
+                out.append(n)
+            else:
+                if any(x is ynode for x in ast.walk(st)):
+                    raise OutOfReach("yield in an unsupported position of a context manager")
+                out.append(st)
+        return out
+    return rep(stmts)
+
+
+def exec_body_marker(E, m, st, gfx):
+    """Execute the with-BODY at the generator's yield point."""
+    frame = st.ghost["cm_stack"][-1]
+    outs = []
+    for y in (E.ev(m.yval, st, gfx) if m.yval is not None else [Ev(st, NONE)]):
+        if y.exc is not None:
+            outs.append(E._raise_out(y, m))
+            continue
+        s0 = y.st
+        gen_env = s0.env
+        s0.env = dict(frame["caller_env"])
+        targets = [Ev(s0, NONE)]
+        if m.item.optional_vars is not None:
+            targets = E.assign(m.item.optional_vars, y.val, s0, m.caller_fx)
+        for t in targets:
+            if t.exc is not None:
+                t.st.env = gen_env
+                outs.append(E._raise_out(t, m))
+                continue
+            for o in E.exec_block(m.with_stmt.body, t.st, m.caller_fx):
+                fr = o.st.ghost["cm_stack"][-1]
+                fr["caller_env_out"] = o.st.env
+                fr["ran_body"] = True
+                o.st.env = dict(gen_env)
+                if o.kind == "return":
+                    fr["ret"] = (o.val, o.site)
+                    outs.append(Outcome("normal", o.st))
+                elif o.kind in ("normal", "raise"):
+                    outs.append(o)
+                else:
+                    raise OutOfReach("break/continue out of a with-block of an inlined context manager")
     return outs
